@@ -665,7 +665,26 @@ def extract_stacks(mgrs, facts):
              for s in init.body):
     raise TranslatorError(F_DETOUR + ': `self._tls = threading.local()` not found in _DetourContext.__init__')
   expect_shape(F_DETOUR, common.find_func(cls, 'enter_scope'), DETOUR_ENTER, '_DetourContext.enter_scope')
-  expect_shape(F_DETOUR, common.find_func(cls, 'leave_scope'), DETOUR_LEAVE, '_DetourContext.leave_scope')
+  # The `__new__` patch is shared by all threads while the mapping is per thread: nothing but
+  # enter_scope may write a class's `__new__` or drop an `_original_new` entry (another thread may
+  # still be inside a detour of that class).
+  unpatch = []
+  for f2 in ast.walk(tree):
+    if not isinstance(f2, ast.FunctionDef) or f2.name == 'enter_scope':
+      continue
+    for n in ast.walk(f2):
+      if isinstance(n, ast.Call) and isinstance(n.func, ast.Name) and n.func.id in ('setattr', 'delattr') \
+          and len(n.args) >= 2 and isinstance(n.args[1], ast.Constant) and n.args[1].value == '__new__':
+        unpatch.append('%s:%d %s' % (f2.name, n.lineno, ast.unparse(n)))
+      if isinstance(n, ast.Delete) and any('_original_new' in ast.unparse(t) for t in n.targets):
+        unpatch.append('%s:%d %s' % (f2.name, n.lineno, ast.unparse(n)))
+      if isinstance(n, ast.Call) and isinstance(n.func, ast.Attribute) and n.func.attr in ('pop', 'clear', 'popitem') \
+          and '_original_new' in ast.unparse(n.func.value):
+        unpatch.append('%s:%d %s' % (f2.name, n.lineno, ast.unparse(n)))
+  facts['detourNeverUnpatches'] = not unpatch
+  facts['detourUnpatchSites'] = unpatch
+  if not unpatch:
+    expect_shape(F_DETOUR, common.find_func(cls, 'leave_scope'), DETOUR_LEAVE, '_DetourContext.leave_scope')
   expect_shape(F_DETOUR, common.find_func(cls, '_detour_stack'), DETOUR_STACK, '_DetourContext._detour_stack')
   expect_shape(F_DETOUR, common.find_func(cls, 'current_mappings'), DETOUR_CURRENT, '_DetourContext.current_mappings')
   ckey = None
@@ -851,6 +870,10 @@ def run():
   L.append('/-- `TimeIt.__enter__`: is the context found on entry recorded on every entry (also `None`)? -/')
   L.append('inductive ParentRule where | recordsParent | keepsStaleParent deriving DecidableEq, Repr')
   L.append('def timingEnterShape : ParentRule := .%s' % facts['timingEnterShape'])
+  L.append('')
+  L.append('/-- No function of class_detour.py other than `enter_scope` writes a class\'s `__new__` or drops an')
+  L.append('`_original_new` entry (the patch is process-wide, the mapping per thread). -/')
+  L.append('def detourNeverUnpatches : Bool := %s' % common.lean_bool(facts['detourNeverUnpatches']))
   L.append('')
   L.append('end Pg.C17')
   L.append('')
